@@ -987,7 +987,7 @@ impl<F: FileSystem + Sync> Server<F> {
             lk_flags,
             ..
         } = ctx.r.read_obj().map_err(Error::DecodeMessage)?;
-        match self.fs.setlk(
+        match self.fs.setlkw(
             ctx.context(),
             ctx.nodeid(),
             fh.into(),
